@@ -242,3 +242,8 @@ func PickStr(label string, a, b string) string {
 	}
 	return a
 }
+
+func IsNonNilPointer(v any) bool {
+	rv := reflect.ValueOf(v)
+	return rv.Kind() == reflect.Ptr && !rv.IsNil()
+}
